@@ -3,6 +3,101 @@
 extern crate a_vf_core as vf_core;
 use fauntlet::{Font, Hinting, HintingTarget, InstanceOptions, RegularizingPen};
 use skrifa::{outline::pen::PathElement, GlyphId};
+use vf_c03::synth::{Recipe, SynthFont};
+
+fn tokens(ins: &[u8]) -> Vec<Vec<u8>> {
+    // one token = one instruction incl. inline push data; IF..EIF blocks are kept whole
+    let mut out: Vec<Vec<u8>> = vec![];
+    let mut i = 0;
+    let mut depth = 0;
+    while i < ins.len() {
+        let op = ins[i];
+        let len = match op {
+            0xB0..=0xB7 => 2 + (op - 0xB0) as usize,
+            0xB8..=0xBF => 1 + 2 * (1 + (op - 0xB8) as usize),
+            _ => 1,
+        };
+        let tok = ins[i..(i + len).min(ins.len())].to_vec();
+        if depth > 0 {
+            out.last_mut().unwrap().extend_from_slice(&tok);
+        } else {
+            out.push(tok);
+        }
+        if op == 0x58 {
+            depth += 1;
+        }
+        if op == 0x59 {
+            depth -= 1;
+        }
+        i += len;
+    }
+    out
+}
+
+fn stack_effect(tok: &[u8]) -> i32 {
+    let op = tok[0];
+    match op {
+        0xB0..=0xB7 => 1 + (op - 0xB0) as i32,
+        0xB8..=0xBF => 1 + (op - 0xB8) as i32,
+        0x00 | 0x01 | 0x18 | 0x19 | 0x3D | 0x7A | 0x7C | 0x7D | 0x30 | 0x31 | 0x23 | 0x43 | 0x46 | 0x47 | 0x68..=0x6B | 0x59 => 0,
+        0x10..=0x12 | 0x1D | 0x21 | 0x2E | 0x2F | 0x32 | 0x33 | 0x39 | 0x3C | 0x50 | 0x60 | 0x61 | 0x58 => -1,
+        0xC0..=0xDF => -1,
+        0x2B => -2,
+        0x38 | 0x3E | 0x3F | 0x42 | 0x48 => -2,
+        0xE0..=0xFF => -2,
+        0x5D => -3,
+        0x4B | 0x20 => 1,
+        _ => 0,
+    }
+}
+
+/// Groups instruction tokens into stack-neutral snippets (the generator only emits such snippets).
+fn groups(ins: &[u8]) -> Vec<Vec<u8>> {
+    let mut out: Vec<Vec<u8>> = vec![];
+    let mut cur: Vec<u8> = vec![];
+    let mut depth = 0;
+    for t in tokens(ins) {
+        depth += stack_effect(&t);
+        cur.extend_from_slice(&t);
+        if depth == 0 {
+            out.push(std::mem::take(&mut cur));
+        }
+    }
+    if !cur.is_empty() {
+        out.push(cur);
+    }
+    out
+}
+
+fn closure(f: &SynthFont, gid: usize, acc: &mut Vec<usize>) {
+    if acc.contains(&gid) {
+        return;
+    }
+    acc.push(gid);
+    if let Recipe::Composite { comps, .. } = &f.glyphs[gid].recipe {
+        for c in comps {
+            closure(f, c.gid as usize, acc);
+        }
+    }
+}
+
+fn differs(seed: u64, index: u32, path: &str, gid: u32, ppem: u32, hinting: Option<Hinting>, progs: &[(usize, Vec<Vec<u8>>)]) -> bool {
+    let spec: Vec<String> = progs
+        .iter()
+        .map(|(g, t)| format!("{}={}", g, t.iter().flatten().map(|b| format!("{b:02x}")).collect::<Vec<_>>().join(" ")))
+        .collect();
+    std::env::set_var("C03_DBG_OVERRIDE_INS", spec.join(";"));
+    let f = vf_c03::synth::generate(seed, index);
+    std::fs::write(path, &f.bytes).unwrap();
+    let mut font = Font::new(path).unwrap();
+    let Some((mut ft, mut sk)) = font.instantiate(&InstanceOptions::new(0, ppem, &[], hinting)) else { return false };
+    let mut p1: Vec<PathElement> = vec![];
+    let mut p2: Vec<PathElement> = vec![];
+    let a1 = ft.outline(GlyphId::new(gid), &mut RegularizingPen::new(&mut p1, ppem != 0));
+    let a2 = sk.outline(GlyphId::new(gid), &mut RegularizingPen::new(&mut p2, ppem != 0));
+    a1.is_some() && a2.is_ok() && p1 != p2
+}
+
 fn main() {
     let a: Vec<String> = std::env::args().collect();
     let seed: u64 = a[1].parse().unwrap();
@@ -32,6 +127,92 @@ fn main() {
             Some("auto") => Some(Hinting::Auto(t(a.get(7).map(|s| s.as_str()).unwrap_or("normal")))),
             _ => None,
         };
+        if std::env::var("MINIMISE_SHAPE").is_ok() {
+            let spec = |c: &Vec<Vec<vf_c03::synth::Pt>>| {
+                format!(
+                    "{}={}",
+                    gid,
+                    c.iter().map(|ct| ct.iter().map(|p| format!("{},{},{}", p.x, p.y, p.on as u8)).collect::<Vec<_>>().join(" ")).collect::<Vec<_>>().join("|")
+                )
+            };
+            let mut contours = vf_c03::synth::flatten(&f, gid as usize);
+            let check = |c: &Vec<Vec<vf_c03::synth::Pt>>| {
+                std::env::set_var("C03_DBG_OVERRIDE_GLYPH", spec(c));
+                differs(seed, index, &a[3], gid, ppem, hinting, &[])
+            };
+            println!("flattened differs: {}", check(&contours));
+            loop {
+                let mut changed = false;
+                let mut i = 0;
+                while i < contours.len() {
+                    let mut t = contours.clone();
+                    t.remove(i);
+                    if check(&t) {
+                        contours = t;
+                        changed = true;
+                    } else {
+                        i += 1;
+                    }
+                }
+                for ci in 0..contours.len() {
+                    let mut pi = 0;
+                    while pi < contours[ci].len() && contours[ci].len() > 1 {
+                        let mut t = contours.clone();
+                        t[ci].remove(pi);
+                        if check(&t) {
+                            contours = t;
+                            changed = true;
+                        } else {
+                            pi += 1;
+                        }
+                    }
+                }
+                if !changed {
+                    break;
+                }
+            }
+            println!("minimal: C03_DBG_OVERRIDE_GLYPH='{}'", spec(&contours));
+            check(&contours);
+        }
+        if std::env::var("MINIMISE").is_ok() {
+            let mut gl = vec![];
+            closure(&f, gid as usize, &mut gl);
+            let mut progs: Vec<(usize, Vec<Vec<u8>>)> = gl
+                .iter()
+                .map(|g| {
+                    let ins = match &f.glyphs[*g].recipe {
+                        Recipe::Simple { ins, .. } | Recipe::Composite { ins, .. } => ins.clone(),
+                        Recipe::Empty => vec![],
+                    };
+                    (*g, groups(&ins))
+                })
+                .collect();
+            println!("initial differs: {}", differs(seed, index, &a[3], gid, ppem, hinting, &progs));
+            loop {
+                let mut changed = false;
+                for gi in 0..progs.len() {
+                    let mut ti = 0;
+                    while ti < progs[gi].1.len() {
+                        let mut trial = progs.clone();
+                        trial[gi].1.remove(ti);
+                        if differs(seed, index, &a[3], gid, ppem, hinting, &trial) {
+                            progs = trial;
+                            changed = true;
+                        } else {
+                            ti += 1;
+                        }
+                    }
+                }
+                if !changed {
+                    break;
+                }
+            }
+            for (g, t) in &progs {
+                println!("gid {g}: {}", t.iter().map(|x| x.iter().map(|b| format!("{b:02x}")).collect::<Vec<_>>().join(" ")).collect::<Vec<_>>().join(" | "));
+            }
+            differs(seed, index, &a[3], gid, ppem, hinting, &progs);
+        }
+        let mut font = Font::new(&a[3]).unwrap();
         let (mut ft, mut sk) = font.instantiate(&InstanceOptions::new(0, ppem, &[], hinting)).unwrap();
         let mut p1: Vec<PathElement> = vec![];
         let mut p2: Vec<PathElement> = vec![];
